@@ -4,6 +4,8 @@ Decided: every remote mutable write carries a non-empty test vector that pins
 the version the publisher saw, a rejected or surprising answer always ends in
 UncoordinatedWriteError, and modify() retries only on that error after a
 fresh survey (DESIGN.md section 5, C12)."""
+import builtins
+
 from sa.h import *
 
 EXPLANATION = (
@@ -363,6 +365,39 @@ def run(ctx: Context):
                   "_evaluate_test_vectors over the same vectors/shares is true and returns that verdict; "
                   "_evaluate_test_vectors returns False on the first failing vector", expected=3) as r:
         _server_side(r, idx)
+
+    # -- 10. the answer handler cannot die before it marks the surprise ----------
+    with ctx.rule("C12.10", "R1", "_got_write_answer: no local is read before it is bound on a path that can still reach "
+                  "self.surprised = True (the NameError would be swallowed by finish_publishing's DeferredList)",
+                  expected=1) as r:
+        _bound_before_marking(r, idx.func(PUB + "._got_write_answer"))
+
+    # -- 11. what is compared, and what is withheld from the comparison -----------
+    with ctx.rule("C12.11", "R1/E6", "_got_write_answer compares self._checkstring with answer[1][shnum][i] for every shnum "
+                  "of a surprise set that starts from all shares in the answer; only this writer's share and shares tied "
+                  "to the answering server are withheld; both proxies send a read vector with index i", expected=4) as r:
+        _surprise_set(r, idx, idx.func(PUB + "._got_write_answer"))
+
+    # -- 12. every answer is awaited before success can be reported ---------------
+    with ctx.rule("C12.12", "E7", "Publish.finish_publishing returns a DeferredList over a list that received every writer "
+                  "Deferred; push_everything_else runs _push only as a callback of it", expected=3) as r:
+        _answers_awaited(r, idx)
+
+    # -- 13. a surprise is reported, not dropped -----------------------------------
+    with ctx.rule("C12.13", "R1", "_push: after observing self.surprised every path calls self._failure()", expected=1) as r:
+        _surprised_fails(r, idx.func(PUB + "._push"))
+
+    # -- 14. the publish result travels back through modify() ----------------------
+    with ctx.rule("C12.14", "E7", "modify(): _apply returns the upload's Deferred, _modify_once returns the Deferred _apply is "
+                  "chained on, the callbacks in _modify_and_retry/_retry return the calls they make, and both return their "
+                  "Deferred - an UncoordinatedWriteError reaches _retry and the caller", expected=5) as r:
+        _modify_chain_returns(r, idx)
+
+    # -- 15. no zero-length test vector ----------------------------------------------
+    with ctx.rule("C12.15", "R1", "set_checkstring stores (0, len(cs), cs) only where cs is known to be non-empty "
+                  "((0, 0, b'') is satisfied by any share contents)", expected=2) as r:
+        for q in (SDMFW, MDMFW):
+            _nonempty_vector(r, idx.func(q + ".set_checkstring"))
 
 
 # --------------------------------------------------------------- rule bodies
@@ -839,6 +874,35 @@ def _server_side(r, idx):
                 fails.append((n, lab, cfg.nodes[d]))
     if len(fails) < 2:
         raise AnchorVanished("_evaluate_test_vectors no longer branches on check_testv for existing and empty shares")
+    # test vectors are evaluated against something other than the stored share only when the share is absent
+    eps = first_positional_params(ev)
+    if len(eps) < 2:
+        raise AnchorVanished("_evaluate_test_vectors(test_and_write_vectors, shares) signature changed")
+    twv, shp = eps[0], eps[1]
+    for n in cfg.nodes:
+        for c in calls_at(n, "check_testv"):
+            recv = c.func.value if isinstance(c.func, ast.Attribute) else None
+            tv = fnorm.norm(n, c.args[0]) if c.args else "?"
+            m = re.match(r"^" + re.escape(twv) + r"\[(\w+)\]\[0\]$", tv)
+            if not m:
+                r.violation(ev, ev.loc(c), "check_testv is given %s, not the test vector of one share of the request" % tv)
+                continue
+            key = m.group(1)
+            if isinstance(recv, ast.Subscript) and fnorm.norm(n, recv.value) == shp:
+                r.require(fnorm.norm(n, recv.slice) == key, ev, ev.loc(c), "the test vector of share %s is evaluated against "
+                          "share %s" % (key, fnorm.norm(n, recv.slice)))
+                continue
+            rr0 = fnorm.resolve(n, recv) if recv is not None else None
+            if isinstance(rr0, ast.BoolOp) and isinstance(rr0.op, ast.Or):
+                rr0 = rr0.values[0]
+            if isinstance(rr0, ast.Call) and call_tail(rr0) == "get" and isinstance(rr0.func, ast.Attribute) \
+                    and fnorm.norm(n, rr0.func.value) == shp and rr0.args and fnorm.norm(n, rr0.args[0]) == key:
+                continue      # shares.get(sharenum, <stand-in>): the stand-in is used only for an absent share
+            absent = _fact_gate(fnorm, lambda op, l, rr, _k=key: op == "not in" and l == _k and rr == shp)
+            for (t, w) in find_path_avoiding(cfg, lambda x, _n=n: x is _n, gate_edge=absent, kill=stores(key)):
+                r.violation(ev, ev.loc(c), "the test vector of share %s is evaluated against %s although the share may exist: "
+                            "a 'must not exist' vector passes and the existing share is overwritten (path: %s)" % (
+                                key, src(ev, recv) if recv is not None else "?", w.brief()), w)
     for (n, lab, d) in fails:
         visited, parent = explore(cfg, 0, lambda a, b, c, s: None if (is_return(a) or b == "exc") else 0, start=d)
         r.count(len(visited))
@@ -854,3 +918,578 @@ def _server_side(r, idx):
         v = n.ast.value
         r.require(isinstance(v, ast.Constant) and isinstance(v.value, bool), ev, ev.loc(n.ast),
                   "_evaluate_test_vectors returns %s" % src(ev, v))
+
+
+# ------------------------------------------------------- gap-review additions
+_COMPS = (ast.ListComp, ast.SetComp, ast.GeneratorExp, ast.DictComp)
+_WRAPPERS = ("set", "list", "frozenset", "tuple", "sorted")
+
+
+def _target_names(t):
+    return {x.id for x in ast.walk(t) if isinstance(x, ast.Name)}
+
+
+def _local_loads(n, local_names):
+    """Loads of function locals evaluated at CFG node `n` (comprehension variables shadow; lambda bodies and nested
+    function bodies are not evaluated here)."""
+    out = []
+
+    def walk(e, bound):
+        if isinstance(e, (ast.Lambda, ast.FunctionDef, ast.AsyncFunctionDef, ast.ClassDef)):
+            return
+        if isinstance(e, _COMPS):
+            b = set(bound)
+            for g in e.generators:
+                walk(g.iter, b)
+                b |= _target_names(g.target)
+                for c in g.ifs:
+                    walk(c, b)
+            for part in ([e.key, e.value] if isinstance(e, ast.DictComp) else [e.elt]):
+                walk(part, b)
+            return
+        if isinstance(e, ast.Name):
+            if isinstance(e.ctx, ast.Load) and e.id in local_names and e.id not in bound:
+                out.append(e)
+            return
+        if isinstance(e, ast.AugAssign) and isinstance(e.target, ast.Name) and e.target.id in local_names:
+            out.append(e.target)
+        for c in ast.iter_child_nodes(e):
+            walk(c, bound)
+    for e in node_exprs(n):
+        walk(e, frozenset())
+    return out
+
+
+class _Unknown:
+    """'set' of every name that is not in `known` (for _local_loads)."""
+    def __init__(self, known):
+        self.known = known
+
+    def __contains__(self, name):
+        return name not in self.known
+
+
+def _module_level_names(mod):
+    names, star = set(), False
+    stack = list(mod.tree.body)
+    while stack:
+        st = stack.pop()
+        for x in ast.walk(st):
+            if isinstance(x, ast.Name) and isinstance(x.ctx, ast.Store):
+                names.add(x.id)
+            elif isinstance(x, (ast.FunctionDef, ast.AsyncFunctionDef, ast.ClassDef)):
+                names.add(x.name)
+            elif isinstance(x, (ast.Import, ast.ImportFrom)):
+                for al in x.names:
+                    if al.name == "*":
+                        star = True
+                    else:
+                        names.add((al.asname or al.name).split(".")[0])
+            elif isinstance(x, ast.Global):
+                names.update(x.names)
+    return names, star
+
+
+def _bound_before_marking(r, ga):
+    cfg = ga.cfg()
+    r.site(ga, None, "locals bound before use")
+
+    def marks(n):
+        if n.kind != "stmt" or "self.surprised" not in node_stores(n):
+            return False
+        v = assign_value(n, "self.surprised")
+        return isinstance(v, ast.Constant) and v.value is True
+    mk = [n for n in cfg.nodes if marks(n)]
+    if not mk:
+        raise AnchorVanished("_got_write_answer no longer sets self.surprised = True")
+    # nodes from which a marking is still ahead (normal edges)
+    ahead = {n.id for n in mk}
+    work = list(ahead)
+    while work:
+        x = work.pop()
+        for (p, lab) in cfg.pred[x]:
+            if lab != "exc" and p not in ahead:
+                ahead.add(p)
+                work.append(p)
+    local_names = set()
+    for n in cfg.nodes:
+        local_names |= {s for s in node_stores(n) if "." not in s and not s.endswith("[]")}
+    local_names -= set(ga.params)
+    known, star = _module_level_names(ga.module)
+    known |= set(dir(builtins)) | set(ga.params)
+    p = ga.parent
+    while p is not None:
+        known |= set(p.params) | {x.id for x in func_own_nodes(p) if isinstance(x, ast.Name) and isinstance(x.ctx, ast.Store)} \
+            | set(p.nested)
+        p = p.parent
+    loads = {}
+    for n in cfg.nodes:
+        if n.id in ahead and n.kind not in ("entry", "exit", "raise"):
+            for nm in _local_loads(n, local_names):
+                loads.setdefault(nm.id, []).append((n, nm))
+            if not star:
+                for nm in _local_loads(n, _Unknown(known | local_names)):
+                    r.violation(ga, ga.loc(nm), "_got_write_answer reads the name '%s', which is bound nowhere: the NameError "
+                                "ends the answer handler before self.surprised = True, finish_publishing's DeferredList "
+                                "swallows it and the publish reports success" % nm.id)
+    for name in sorted(loads):
+        def transfer(n, lab, nxt, st, _nm=name):
+            if lab != "exc" and _nm in node_stores(n):
+                if n.kind == "iter":
+                    return True if lab == "iter" else st
+                return not isinstance(n.ast, ast.Delete)
+            return st
+        visited, parent = explore(cfg, False, transfer)
+        r.count(len(visited))
+        for (n, nm) in loads[name]:
+            if (n.id, False) in visited:
+                w = witness(cfg, parent, (n.id, False))
+                r.violation(ga, ga.loc(nm), "_got_write_answer can read the local '%s' before it is bound: the NameError ends "
+                            "the answer handler before self.surprised = True, finish_publishing's DeferredList swallows it "
+                            "and the publish reports success (path: %s)" % (name, w.brief()), w)
+                break
+
+
+def _unwrap(e):
+    while isinstance(e, ast.Call) and isinstance(e.func, ast.Name) and e.func.id in _WRAPPERS and len(e.args) == 1 \
+            and not e.keywords:
+        e = e.args[0]
+    return e
+
+
+def _surprise_set(r, idx, ga):
+    cfg = ga.cfg()
+    fnorm = FlowNorm(ga)
+    ps = first_positional_params(ga)
+    if len(ps) < 2:
+        raise AnchorVanished("_got_write_answer(answer, writer, ..) signature changed")
+    ans, wr = ps[0], ps[1]
+    here = wr + ".server"
+    mine = wr + ".shnum"
+    rd = C.reaching_defs(cfg)
+    cmps = []
+    for n in cfg.nodes:
+        for (d, lab) in cfg.succ[n.id]:
+            f = fnorm.edge_fact(n, lab)
+            if f and f[0] == "!=" and "self._checkstring" in (f[1], f[2]):
+                cmps.append((n, f[2] if f[1] == "self._checkstring" else f[1]))
+    if not cmps:
+        raise AnchorVanished("_got_write_answer no longer compares anything with self._checkstring")
+    pat = re.compile(r"^" + re.escape(ans) + r"\[1\]\[(\w+)\]\[(\d+)\]$")
+    indices, sets_seen = set(), set()
+    for (n, other) in cmps:
+        r.site(ga, n.ast, "compared checkstring")
+        m = pat.match(other)
+        if not m:
+            r.violation(ga, ga.loc(n.ast), "self._checkstring is compared with %s, not with what the server read from the "
+                        "surprise share (%s[1][<shnum>][<i>]): a share of another version is not recognised (or the "
+                        "comparison raises and the answer is dropped)" % (other, ans))
+            continue
+        lv, i = m.group(1), int(m.group(2))
+        indices.add(i)
+        defs = rd.get(n.id, {}).get(lv, frozenset())
+        r.require(bool(defs), ga, ga.loc(n.ast), "share number %s of the comparison is never bound" % lv)
+        for did in sorted(defs):
+            dn = cfg.nodes[did] if did >= 0 else None
+            it = _unwrap(dn.ast.iter) if dn is not None and dn.kind == "iter" and isinstance(dn.ast.target, ast.Name) else None
+            if not isinstance(it, ast.Name):
+                r.violation(ga, ga.loc(n.ast), "the share number %s whose checkstring is compared is not the loop variable "
+                            "over the surprise set" % lv)
+                continue
+            sets_seen.add(it.id)
+    for S in sorted(sets_seen):
+        r.site(ga, None, "surprise set %s" % S)
+        _surprise_set_defs(r, ga, cfg, fnorm, S, ans, here, mine)
+    if not sets_seen and not any(True for _ in r.violations):
+        raise AnchorVanished("surprise set of _got_write_answer not found")
+    # both proxies ask the server to read index i
+    if indices:
+        need = max(indices)
+        lay = idx.module("allmydata.mutable.layout")
+        n_sites = 0
+        for (f, nd, _recv, kind) in _sweep(idx, REMOTE):
+            if kind != "call" or f.module is not lay or f.cls is None:
+                continue
+            n_sites += 1
+            r.site(f, nd, "read vector")
+            rv = arg(nd, 3, "r_vector")
+            tn = f.cfg().find(lambda x, _c=nd: any(c is _c for c in node_calls(x)))
+            p = FlowNorm(f).norm(tn[0], rv) if (rv is not None and tn) else None
+            if not p or not re.match(r"^self\.\w+$", p):
+                r.violation(f, f.loc(nd), "%s sends the read vector %s: cannot establish that it reads the checkstring" % (
+                    short(f), p))
+                continue
+            vals = [s.value for g in _class_funcs(f.cls) for s in func_own_nodes(g) if isinstance(s, ast.Assign)
+                    and any(attr_path(t) == p for t in s.targets)]
+            r.require(bool(vals), f, f.loc(nd), "%s is never set in %s" % (p, f.cls.name))
+            for v in vals:
+                r.require(isinstance(v, (ast.List, ast.Tuple)) and len(v.elts) > need, f, f.loc(v),
+                          "%s = %s has no entry %d: _got_write_answer's read_data[shnum][%d] raises for every surprise "
+                          "share and the answer is dropped" % (p, src(f, v), need, need))
+        if n_sites < 2:
+            raise AnchorVanished("expected the SDMF and MDMF write proxies to call %s" % REMOTE)
+
+
+def _surprise_set_defs(r, ga, cfg, fnorm, S, ans, here, mine):
+    bases = {norm_src(t % ans) for t in ("set(%s[1].keys())", "set(%s[1])", "%s[1].keys()", "frozenset(%s[1].keys())",
+                                         "frozenset(%s[1])", "set(list(%s[1].keys()))", "list(%s[1].keys())", "list(%s[1])")}
+
+    def split(v):
+        if isinstance(v, ast.BinOp) and isinstance(v.op, ast.Sub):
+            b, rem = split(v.left)
+            return b, rem + [v.right]
+        if isinstance(v, ast.Call) and isinstance(v.func, ast.Attribute) and v.func.attr == "difference" and not v.keywords:
+            b, rem = split(v.func.value)
+            return b, rem + list(v.args)
+        return v, []
+
+    def tied(n, cond):
+        f = fnorm.at(n).cmp(cond, True)
+        return bool(f) and f[0] == "==" and here in (f[1], f[2])
+
+    def gated_here(n):
+        g = _fact_gate(fnorm, lambda op, l, rr: op == "==" and here in (l, rr))
+        return not find_path_avoiding(cfg, lambda x, _n=n: x is _n, gate_edge=g)
+
+    def removal_ok(n, e, seen):
+        e = _unwrap(e)
+        if isinstance(e, (ast.List, ast.Tuple, ast.Set)):
+            return all(fnorm.norm(n, x) == mine for x in e.elts)
+        if isinstance(e, ast.Call) and isinstance(e.func, ast.Name) and e.func.id in _WRAPPERS and not e.args:
+            return True
+        if isinstance(e, _COMPS):
+            return any(tied(n, c) for g in e.generators for c in g.ifs)
+        if isinstance(e, ast.Subscript):
+            return fnorm.norm(n, e.slice) == here
+        if isinstance(e, ast.Call) and call_tail(e) in ("get", "pop", "setdefault") and e.args \
+                and isinstance(e.func, ast.Attribute):
+            return fnorm.norm(n, e.args[0]) == here
+        if isinstance(e, ast.BinOp) and isinstance(e.op, (ast.BitOr, ast.Add)):
+            return removal_ok(n, e.left, seen) and removal_ok(n, e.right, seen)
+        if isinstance(e, ast.Name):
+            if e.id in seen or e.id in ga.params:
+                return False
+            seen = seen | {e.id}
+            found = False
+            for m in cfg.nodes:
+                if m.kind in ("iter", "with", "except") and e.id in node_stores(m):
+                    return False
+                if m.kind != "stmt":
+                    continue
+                if e.id in node_stores(m):
+                    found = True
+                    a = m.ast
+                    if isinstance(a, ast.Assign) and all(isinstance(t, ast.Name) for t in a.targets):
+                        v = a.value
+                        if isinstance(v, (ast.List, ast.Set, ast.Tuple)) and not v.elts:
+                            continue
+                        if not removal_ok(m, v, seen):
+                            return False
+                    elif isinstance(a, ast.AugAssign) and isinstance(a.op, (ast.BitOr, ast.Add)):
+                        if not removal_ok(m, a.value, seen):
+                            return False
+                    else:
+                        return False
+                for c in node_calls(m):
+                    if isinstance(c.func, ast.Attribute) and isinstance(c.func.value, ast.Name) and c.func.value.id == e.id:
+                        t = c.func.attr
+                        if t in ("extend", "update", "union_update"):
+                            if not all(removal_ok(m, x, seen) for x in c.args):
+                                return False
+                        elif t in ("append", "add"):
+                            if not (c.args and (fnorm.norm(m, c.args[0]) == mine or gated_here(m))):
+                                return False
+            return found
+        return False
+
+    def removal(n, e, where):
+        r.count(1)
+        r.require(removal_ok(n, e, frozenset()), ga, ga.loc(where),
+                  "the share numbers %s are withheld from the surprise comparison without being tied to the answering "
+                  "server (an equality with %s) or being this writer's own share: a share of another version that the "
+                  "server reports can go unnoticed" % (src(ga, e), here))
+
+    n_defs = 0
+    for n in cfg.nodes:
+        a = n.ast
+        if n.kind in ("iter", "with", "except") and S in node_stores(n):
+            r.violation(ga, ga.loc(a), "the surprise set %s is rebound by a loop/with" % S)
+        if n.kind != "stmt":
+            continue
+        if S in node_stores(n):
+            n_defs += 1
+            if isinstance(a, ast.Assign) and all(isinstance(t, ast.Name) for t in a.targets):
+                base, rems = split(a.value)
+                if not (isinstance(base, ast.Name) and base.id == S):
+                    r.require(fnorm.norm(n, base) in bases, ga, ga.loc(a), "the surprise set starts from %s, not from every "
+                              "share in the server's answer (%s[1])" % (src(ga, base), ans))
+                for e in rems:
+                    removal(n, e, a)
+            elif isinstance(a, ast.AugAssign) and isinstance(a.op, ast.Sub):
+                removal(n, a.value, a)
+            elif isinstance(a, ast.AugAssign) and isinstance(a.op, ast.BitOr):
+                pass
+            else:
+                r.violation(ga, ga.loc(a), "the surprise set %s is changed by %s" % (S, src(ga, a)))
+        for c in node_calls(n):
+            if isinstance(c.func, ast.Attribute) and isinstance(c.func.value, ast.Name) and c.func.value.id == S:
+                t = c.func.attr
+                if t == "difference_update":
+                    for e in c.args:
+                        removal(n, e, c)
+                elif t in ("discard", "remove"):
+                    r.require(bool(c.args) and (fnorm.norm(n, c.args[0]) == mine or gated_here(n)), ga, ga.loc(c),
+                              "%s withholds a share from the surprise comparison without tying it to the answering server" % src(ga, c))
+                elif t in ("clear", "pop", "intersection_update", "symmetric_difference_update"):
+                    r.violation(ga, ga.loc(c), "%s drops shares from the surprise set" % src(ga, c))
+    if not n_defs:
+        raise AnchorVanished("surprise set %s has no definition" % S)
+
+
+def _returns_only(r, fn, ok_value, what, why):
+    """Every normal path through `fn` ends in a return whose value satisfies ok_value(node, value)."""
+    cfg = fn.cfg()
+    for (n, w) in find_path_avoiding(cfg, lambda n: n.kind == "exit", gate_node=is_return):
+        r.violation(fn, fn.loc(), "%s can fall off its end and return None instead of %s: %s" % (short(fn), what, why), w)
+    for n in cfg.find(is_return):
+        r.require(n.ast.value is not None and ok_value(n, n.ast.value), fn, fn.loc(n.ast),
+                  "%s returns %s instead of %s: %s" % (short(fn), src(fn, n.ast.value) if n.ast.value is not None else "None",
+                                                        what, why))
+
+
+def _answers_awaited(r, idx):
+    fp = idx.func(PUB + ".finish_publishing")
+    cfg = fp.cfg()
+    dvars = []
+    for n in cfg.nodes:
+        if n.kind == "stmt" and isinstance(n.ast, ast.Assign) and isinstance(n.ast.value, ast.Call) \
+                and call_tail(n.ast.value) == "finish_publishing" and len(n.ast.targets) == 1 \
+                and isinstance(n.ast.targets[0], ast.Name) and call_name(n.ast.value) != "self.finish_publishing":
+            dvars.append((n, n.ast.targets[0].id))
+    if not dvars:
+        raise AnchorVanished("no 'd = <writer>.finish_publishing()' in %s" % short(fp))
+    lists = set()
+    for (dn, dv) in dvars:
+        r.site(fp, dn.ast, "writer Deferred collected")
+
+        def collected(n, _dv=dv):
+            for c in calls_at(n, "append"):
+                if isinstance(c.func.value, ast.Name) and len(c.args) == 1 and isinstance(c.args[0], ast.Name) \
+                        and c.args[0].id == _dv:
+                    return c.func.value.id
+            return None
+
+        def transfer(n, lab, nxt, st, _dn=dn, _dv=dv):
+            if lab == "exc":
+                return None
+            if n is not _dn and (n.kind in ("iter", "exit") or _dv in node_stores(n)):
+                return None
+            return st or bool(collected(n))
+        visited, parent = explore(cfg, False, transfer, start=dn)
+        r.count(len(visited))
+        for (nid, st) in sorted(visited):
+            nd = cfg.nodes[nid]
+            if nd is not dn and not st and (nd.kind in ("iter", "exit") or dv in node_stores(nd)):
+                w = witness(cfg, parent, (nid, st))
+                r.violation(fp, fp.loc(dn.ast), "the writer Deferred %s is not added to the list finish_publishing waits for: "
+                            "_push can report success before this server's answer has been examined (path: %s)" % (
+                                dv, w.brief()), w)
+                break
+        for n in cfg.nodes:
+            L = collected(n)
+            if L:
+                lists.add(L)
+    for L in sorted(lists):
+        app = lambda n, _L=L: any(isinstance(c.func.value, ast.Name) and c.func.value.id == _L for c in calls_at(n, "append"))
+        for (s, w) in find_path_from_to_avoiding(cfg, app, lambda n: False, ends=stores(L)):
+            r.violation(fp, fp.loc(s.ast), "the list %s of writer Deferreds is reset after Deferreds were added to it" % L, w)
+    fnorm = FlowNorm(fp)
+
+    def waits(n, v):
+        v = fnorm.resolve(n, v)
+        if not (isinstance(v, ast.Call) and call_tail(v) in ("DeferredList", "gatherResults") and v.args):
+            return False
+        a0 = v.args[0]
+        if not (isinstance(a0, ast.Name) and a0.id in lists):
+            return False
+        early = kwarg(v, "fireOnOneCallback")
+        if early is None and call_tail(v) == "DeferredList" and len(v.args) > 1:
+            early = v.args[1]
+        return early is None or (isinstance(early, ast.Constant) and not early.value)
+    r.site(fp, None, "returns DeferredList of all writer Deferreds")
+    _returns_only(r, fp, waits, "a DeferredList over every writer Deferred",
+                  "success would be reported before all answers have been examined")
+    # push_everything_else: _push only as a callback of finish_publishing()
+    pe = idx.func(PUB + ".push_everything_else")
+    r.site(pe, None, "_push chained after finish_publishing")
+    pcfg = pe.cfg()
+    pnorm = FlowNorm(pe)
+    fin = [n for n in pcfg.nodes if any(call_name(c) == "self.finish_publishing" for c in node_calls(n))]
+    if not fin:
+        raise AnchorVanished("push_everything_else no longer calls self.finish_publishing()")
+    for c in [c for t in ("_push", "_done") for c in calls_in_func(pe, t, into_lambda=True)]:
+        r.violation(pe, pe.loc(c), "push_everything_else calls %s directly: success can be reported before the servers' "
+                    "answers have been examined" % call_name(c))
+    chained = False
+    for reg in registrations(pe):
+        if reg.kind in ("cb", "both") and attr_path(reg.target) == "self._push":
+            dnodes = [n for n in pcfg.nodes if n.kind == "stmt" and reg.recv and reg.recv in node_stores(n)]
+            ok = bool(dnodes) and all(
+                isinstance(assign_value(n, reg.recv), ast.Call) and call_name(assign_value(n, reg.recv)) == "self.finish_publishing"
+                for n in dnodes)
+            r.require(ok, pe, pe.loc(reg.call), "_push is chained on %s, which is not the Deferred of self.finish_publishing()" % (
+                reg.recv or "an anonymous Deferred"))
+            chained = chained or ok
+    r.require(chained, pe, pe.loc(), "push_everything_else no longer runs _push as a callback of self.finish_publishing()")
+
+
+def _surprised_fails(r, push):
+    cfg = push.cfg()
+    fnorm = FlowNorm(push)
+    seen = [False]
+
+    def transfer(n, lab, nxt, st):
+        sur, failed = st
+        if lab == "exc":
+            return None
+        f = fnorm.edge_fact(n, lab)
+        if f and f[0] == "truth" and f[1] == "self.surprised":
+            seen[0] = True
+            sur = True
+        if any(call_name(c) == "self._failure" for c in node_calls(n)):
+            failed = True
+        return (sur, failed)
+    visited, parent = explore(cfg, (False, False), transfer)
+    r.count(len(visited))
+    r.site(push, None, "surprised => _failure()")
+    if not seen[0]:
+        raise AnchorVanished("_push no longer tests self.surprised")
+    for (nid, st) in sorted(visited):
+        if cfg.nodes[nid].kind == "exit" and st[0] and not st[1]:
+            w = witness(cfg, parent, (nid, st))
+            r.violation(push, push.loc(), "_push can return after observing self.surprised without calling self._failure(): "
+                        "the UncoordinatedWriteError is never delivered (path: %s)" % w.brief(), w)
+            break
+
+
+def _returned_calls(idx, fn, target, tail):
+    """For the callable `target` (lambda / nested def / self.method) registered in `fn`: (callee FuncInfo, [calls of
+    `tail` inside it], [those that are not the value of a return])."""
+    info = _callable_info(idx, fn, target)
+    if info is None:
+        return None
+    g = info[0]
+    calls = list(calls_in_func(g, tail, into_lambda=True))
+    if isinstance(target, ast.Lambda):
+        body = target.body
+        return g, calls, [c for c in calls if c is not body]
+    cfg = g.cfg()
+    fnorm = FlowNorm(g)
+    ret = set()
+    for n in cfg.find(is_return):
+        if n.ast.value is not None:
+            ret.add(id(fnorm.resolve(n, n.ast.value)))
+    return g, calls, [c for c in calls if id(c) not in ret]
+
+
+def _modify_chain_returns(r, idx):
+    mr = idx.func(MFV + "._modify_and_retry")
+    mo = idx.func(MFV + "._modify_once")
+    rt = mr.nested.get("_retry")
+    ap = mo.nested.get("_apply")
+    if rt is None or ap is None:
+        raise AnchorVanished("_modify_and_retry._retry / _modify_once._apply")
+    lost = "a publish collision (UncoordinatedWriteError) is lost instead of reaching _retry / the caller"
+
+    def is_var(dv, regs):
+        def ok(n, v):
+            if isinstance(v, ast.Name):
+                return v.id == dv
+            return any(v is x.call for x in regs if x.recv == dv)
+        return ok
+    # (i) _apply returns the upload
+    r.site(ap, None, "_apply returns the upload")
+    ups = list(calls_in_func(ap, "_upload"))
+    if not ups:
+        raise AnchorVanished("_apply no longer calls self._upload")
+    acfg, anorm = ap.cfg(), FlowNorm(ap)
+    returned = {id(anorm.resolve(n, n.ast.value)) for n in acfg.find(is_return) if n.ast.value is not None}
+    for c in ups:
+        r.require(id(c) in returned, ap, ap.loc(c), "_apply does not return the Deferred of %s: %s" % (src(ap, c), lost))
+    # (ii) _modify_once returns the Deferred _apply is chained on
+    regs = registrations(mo)
+    areg = [x for x in regs if x.kind in ("cb", "both") and isinstance(x.target, ast.Name) and x.target.id == "_apply"]
+    r.site(mo, None, "_modify_once returns the chained Deferred")
+    if areg and areg[0].recv:
+        _returns_only(r, mo, is_var(areg[0].recv, regs), "the Deferred that _apply is chained on", lost)
+    else:
+        r.violation(mo, mo.loc(), "_apply is not chained on a named Deferred in _modify_once")
+    # (iii) the callbacks in _modify_and_retry return what they start
+    regs = registrations(mr)
+    r.site(mr, None, "callbacks return their calls")
+    once = [x for x in regs if x.kind == "cb" and _calls_inside(idx, mr, x.target, "_modify_once")]
+    for x in once:
+        res = _returned_calls(idx, mr, x.target, "_modify_once")
+        for c in (res[2] if res else []):
+            r.violation(mr, mr.loc(c), "the callback that calls _modify_once does not return its Deferred: %s" % lost)
+    r.site(mr, None, "_modify_and_retry returns its Deferred")
+    if once and once[0].recv:
+        _returns_only(r, mr, is_var(once[0].recv, regs), "the Deferred the attempt is chained on", lost)
+    # (iv) _retry returns the Deferred of the next attempt
+    rregs = registrations(rt)
+    again = [x for x in rregs if x.kind in ("cb", "both") and _calls_inside(idx, rt, x.target, "_modify_and_retry")]
+    r.site(rt, None, "_retry returns the next attempt")
+    if not again:
+        raise AnchorVanished("_retry no longer chains the next _modify_and_retry")
+    for x in again:
+        res = _returned_calls(idx, rt, x.target, "_modify_and_retry")
+        for c in (res[2] if res else []):
+            r.violation(rt, rt.loc(c), "the callback that starts the next attempt does not return its Deferred: the caller is "
+                        "told the modification is done while the retry is still running, and its outcome is lost")
+    if again[0].recv:
+        _returns_only(r, rt, is_var(again[0].recv, rregs), "the Deferred of the next attempt",
+                      "the caller is told the modification succeeded right after the collision, and the retry's outcome is lost")
+    else:
+        r.violation(rt, rt.loc(again[0].call), "the next attempt is chained on an anonymous Deferred")
+
+
+def _nonempty_vector(r, fn):
+    cfg = fn.cfg()
+    fnorm = FlowNorm(fn)
+    r.site(fn, None, "vector length >= 1")
+    defs = all_defs(fn)
+    for n in cfg.nodes:
+        vecs = []
+        v = assign_value(n, "self._testvs")
+        if isinstance(v, ast.List):
+            vecs += list(v.elts)
+        for c in calls_at(n, "append"):
+            if call_name(c) == "self._testvs.append" and c.args:
+                vecs.append(c.args[0])
+        for e in vecs:
+            e2 = e.args[0] if isinstance(e, ast.Call) and call_name(e) == "tuple" and e.args else e
+            if not (isinstance(e2, (ast.Tuple, ast.List)) and len(e2.elts) == 3 and isinstance(e2.elts[2], ast.Name)
+                    and norm_plain(e2.elts[1]) == "len(%s)" % e2.elts[2].id):
+                continue      # other shapes are C12.1 / C12.2's business
+            cs = e2.elts[2].id
+            names = {cs} | {d.id for d in defs.get(cs, []) if isinstance(d, ast.Name)}
+            empty = norm_src("b''")
+
+            def nonempty(op, l, rr, _names=names):
+                if op == "truth" and l in _names:
+                    return True
+                if op == "!=" and ((l == empty and rr in _names) or (rr == empty and l in _names)):
+                    return True
+                lens = {"len(%s)" % x for x in _names}
+                return (op in ("<", "!=") and l == "0" and rr in lens) or (op == "!=" and rr == "0" and l in lens) \
+                    or (op == "<=" and l == "1" and rr in lens)
+
+            def packed(m, _cs=cs):
+                pv = assign_value(m, _cs)
+                return isinstance(pv, ast.Call) and call_name(pv) == "struct.pack" and len(pv.args) >= 2
+            r.count(len(cfg.nodes))
+            for (t, w) in find_path_avoiding(cfg, lambda x, _n=n: x is _n, gate_edge=_fact_gate(fnorm, nonempty),
+                                             gate_node=packed, kill=stores_any(names)):
+                r.violation(fn, fn.loc(e), "%s can store the test vector (0, len(%s), %s) for an empty %s: (0, 0, b'') is "
+                            "satisfied by any share contents, so the write overwrites whatever another writer put there "
+                            "(path: %s)" % (short(fn), cs, cs, cs, w.brief()), w)
